@@ -465,6 +465,9 @@ def run(check, repo: Repo) -> None:
         enum_ = [c_ for c_ in calls_in(fn_) if (call_name(c_) or "").split(".")[-1] in ("ndindex", "product", "meshgrid")]
         n_enum += len(enum_)
         for c_ in _xy_meshgrids(fn_):
+            if len(c_.args) == 2 and not any(isinstance(a_, ast.Starred) for a_ in c_.args):
+                # two explicit vectors: 'xy' with the arguments AND the results exchanged is the same pair of arrays — not decided here
+                raise AnalysisError(f"Vector.{mname_}: `{unparse(c_)[:60]}` with the default indexing and two explicit arguments is not decided (argument / result order would have to be traced)")
             check.violated("C11-R8", f"Vector.{mname_}: addressed cells are enumerated in row-major order of the index arrays",
                            f"`{unparse(c_)[:60]}` uses meshgrid's default indexing='xy': the first two fixed axes are exchanged, the flat order of the cells is column-major over them",
                            mod.line(c_), definite=True)
